@@ -1049,6 +1049,67 @@ fn cancel_matrix(rng: &mut Rng, out: &mut Vec<Case>) {
     }
 }
 
+/// Durability through the ring: ring writes, ring (or shim) fsync, more writes, crash somewhere, look.
+fn durability(rng: &mut Rng, out: &mut Vec<Case>, n: usize) {
+    for _ in 0..n {
+        let cfg = gen_cfg(rng, 1);
+        let mut ops = vec![Op::NewRing(*rng.pick(&[2u32, 4, 8])), Op::CqNew(0)];
+        let mut ud = 1u64;
+        let rounds = rng.range(1, 3);
+        let crash_at = rng.below(rounds * 3 + 1);
+        let mut step = 0u64;
+        let mut crashed = false;
+        'outer: for _ in 0..rounds {
+            for phase in 0..3 {
+                if step == crash_at {
+                    ops.push(Op::Crash);
+                    crashed = true;
+                    break 'outer;
+                }
+                step += 1;
+                match phase {
+                    0 | 2 => {
+                        for _ in 0..rng.range(1, 2) {
+                            let n = rng.range(1, 5) as usize;
+                            let data: Vec<u8> = (0..n).map(|_| rng.below(255) as u8).collect();
+                            ops.push(Op::Push { ring: 0, ud, kind: Kind::Write { fd: 0, off: rng.below(10), data }, link: false });
+                            ud += 1;
+                        }
+                        ops.push(Op::Submit { ring: 0, mode: 0, want: 0 });
+                        if rng.chance(4, 5) {
+                            ops.push(Op::Advance(20_000_000));
+                            ops.push(Op::CqSync(0));
+                            ops.push(Op::Next(0));
+                            ops.push(Op::Next(0));
+                        }
+                    }
+                    _ => {
+                        if rng.chance(3, 4) {
+                            ops.push(Op::Push { ring: 0, ud, kind: Kind::Fsync { fd: 0 }, link: false });
+                            ud += 1;
+                            ops.push(Op::Submit { ring: 0, mode: 0, want: 0 });
+                            if rng.chance(5, 6) {
+                                ops.push(Op::Advance(20_000_000));
+                                ops.push(Op::CqSync(0));
+                                ops.push(Op::Next(0));
+                            }
+                        } else {
+                            ops.push(Op::FSync { fd: 0 });
+                        }
+                    }
+                }
+            }
+        }
+        if !crashed {
+            ops.push(Op::Crash);
+        }
+        ops.push(Op::FOpen(0));
+        ops.push(Op::FRead { fd: 0, off: 0, len: 16 });
+        closing(&mut ops, 1);
+        out.push(Case { family: "durability", cfg, ops });
+    }
+}
+
 pub fn main(args: &Args, out: &mut dyn Write) {
     let mut rng = Rng::new(args.seed);
     let mut cases: Vec<Case> = vec![];
@@ -1108,6 +1169,7 @@ pub fn main(args: &Args, out: &mut dyn Write) {
         }
         cancel_matrix(&mut rng, &mut cases);
         crash_points(&mut rng, &mut cases, 30 * scale);
+        durability(&mut rng, &mut cases, 120 * scale);
         if let Some(n) = args.cases {
             cases.truncate(n);
         }
